@@ -286,6 +286,26 @@ fn to_f64<const B: usize, const L: usize>() {
     assert!(neighbour64(x.as_limbs(), t.to_bits()), "f64::from(x): finite, exact below 2^53, else pred(t) < x < succ(t)");
     assert!(f64::from(&x).to_bits() == t.to_bits(), "f64::from(&x) == f64::from(x)");
 }
+/// the top of f64's range with CONCRETE values (exactly representable ones must come out exactly; 2^1024 and above is +inf)
+fn to_f64_top() {
+    let mut l = [0u64; 16];
+    l[15] = 1u64 << 63;                                   // 2^1023
+    let x = Uint::<1024, 16>::from_limbs(l);
+    assert!(f64::from(x).to_bits() == 0x7fe0_0000_0000_0000, "f64::from(2^1023) == 2^1023 (finite)");
+    l[15] = 0xffff_ffff_ffff_f800;                        // (2^53 - 1) * 2^971 == f64::MAX
+    let x = Uint::<1024, 16>::from_limbs(l);
+    assert!(f64::from(x).to_bits() == 0x7fef_ffff_ffff_ffff, "f64::from(f64::MAX as integer) == f64::MAX");
+    l[15] = 1u64 << 62;                                   // 2^1022
+    let x = Uint::<1024, 16>::from_limbs(l);
+    assert!(f64::from(x).to_bits() == 0x7fd0_0000_0000_0000, "f64::from(2^1022) == 2^1022");
+    let mut m = [0u64; 17];
+    m[16] = 1;                                            // 2^1024: beyond the rounding range of f64::MAX
+    let y = Uint::<1088, 17>::from_limbs(m);
+    assert!(f64::from(y).to_bits() == F64_INF, "f64::from(2^1024) == +inf");
+    m[16] = 0; m[15] = 1u64 << 63;                        // 2^1023 again at the wider type
+    let y = Uint::<1088, 17>::from_limbs(m);
+    assert!(f64::from(y).to_bits() == 0x7fe0_0000_0000_0000, "f64::from(2^1023) at 1088 bits");
+}
 fn to_f32<const B: usize, const L: usize>() {
     let x = uint::<B, L>();
     let t = f32::from(x);
@@ -413,6 +433,8 @@ crate::harnesses! {
     fn c18_to_f32_w128() { to_f32::<128, 2>() }
     #[cfg_attr(kani, kani::unwind(7))] #[cfg_attr(kani, kani::stub(f64::exp2, exp2_stub))] #[cfg_attr(kani, kani::stub(f32::exp2, exp2_stub_f32))]
     fn c18_to_f64_w192() { to_f64::<192, 3>() }
+    #[cfg_attr(kani, kani::unwind(20))] #[cfg_attr(kani, kani::stub(f64::exp2, exp2_stub))] #[cfg_attr(kani, kani::stub(f32::exp2, exp2_stub_f32))]
+    fn c18_to_f64_top_w1024() { to_f64_top() }
     #[cfg_attr(kani, kani::unwind(7))] #[cfg_attr(kani, kani::stub(f64::exp2, exp2_stub))] #[cfg_attr(kani, kani::stub(f32::exp2, exp2_stub_f32))]
     fn c18_to_f32_w192() { to_f32::<192, 3>() }
     #[cfg_attr(kani, kani::unwind(3))] #[cfg_attr(kani, kani::stub(f64::exp2, exp2_stub))] #[cfg_attr(kani, kani::stub(f32::exp2, exp2_stub_f32))]
